@@ -150,6 +150,7 @@ def _local_names(fn) -> frozenset:
     return r
 
 
+ARRAYLIKE = {"ndarray", "akarray", "array", "arraylike"}
 EXT_KINDS = {
     "akarray": {"awkward.Array", "awkward.highlevel.Array", "ak.Array"},
     "akrecord": {"awkward.Record", "awkward.highlevel.Record", "ak.Record"},
@@ -809,6 +810,10 @@ class Interp:
         for op, rn in zip(n.ops, n.comparators):
             right = self.ev(rn, env, mod)
             r = self.compare(op, left, right, n)
+            if isinstance(r, Opaque):
+                if len(n.ops) == 1:
+                    return r
+                raise Undecided(f"chained comparison on opaque values: {unparse(n)}")
             if not r:
                 return False
             left = right
@@ -820,7 +825,7 @@ class Interp:
                 same = a is None and b is None
                 if isinstance(a, Opaque) or isinstance(b, Opaque):
                     o = a if isinstance(a, Opaque) else b
-                    if o.kind in ("real", "bool", "str", "array", "notnone", "int"):
+                    if o.kind in ("real", "bool", "str", "array", "notnone", "int", "arraylike", "ndarray", "akarray", "akrecord", "slice"):
                         same = False
                     else:
                         raise Undecided(f"None-ness of {o!r} in {unparse(node)}")
@@ -853,6 +858,11 @@ class Interp:
             else:
                 raise Undecided(f"membership test on {b!r}")
             return r if isinstance(op, ast.In) else not r
+        for o in (a, b):
+            if isinstance(o, Opaque) and o.kind in ARRAYLIKE and not isinstance(op, (ast.Is, ast.IsNot, ast.In, ast.NotIn)):
+                other = b if o is a else a
+                if isinstance(other, (Opaque, int, float)) or other is None:
+                    return Opaque(("cmp", type(op).__name__, a if isinstance(a, Opaque) else repr(a), b if isinstance(b, Opaque) else repr(b)), "arraylike")
         if isinstance(op, (ast.Eq, ast.NotEq)):
             r = self._eq(a, b)
             return r if isinstance(op, ast.Eq) else not r
@@ -1131,7 +1141,7 @@ class Interp:
                 return {"builtins.str": str, "builtins.float": float, "builtins.int": int, "builtins.bool": bool}[nm](args[0])
             return Opaque((nm, args[0] if args else None), {"builtins.str": "str", "builtins.float": "real", "builtins.int": "int", "builtins.bool": "bool"}[nm])
         return Opaque(("extcall", nm, tuple(a if not isinstance(a, (list, dict, set)) else repr(a) for a in args),
-                       tuple(sorted((k, v if not isinstance(v, (list, dict, set)) else repr(v)) for k, v in kwargs.items()))), "notnone")
+                       tuple(sorted((k, v if not isinstance(v, (list, dict, set)) else repr(v)) for k, v in kwargs.items()))), "arraylike")
 
     def instantiate(self, cls: ClassVal, args, kwargs, node):
         nt = self.w.namedtuple_fields(cls.name)
